@@ -26,6 +26,20 @@ def scenarios(seed, n):
     for i in range(10):
         out.append({"name": "reload-race-%d" % i, "steps": [{"t": "hold"}, {"t": "reload", "s": "B"}, C, {"t": "release"}, S(RATE_MS * 2),
                                                             {"t": "hold"}, {"t": "reload", "s": "C"}, C, C, {"t": "release"}]})
+    # the same loop behind a real dispatcher: changes through the agent's API, reloads by SIGHUP.  With the loop held the
+    # first new-store message fills the channel and the second reload's send has to wait (never be dropped)
+    H, R = {"t": "hold"}, {"t": "release"}
+    RL = lambda x: {"t": "reload", "s": x}
+    # (the loop parks at its gate only after the next message it handles: the first message after "hold" is still taken)
+    out.append({"name": "agent-three-reloads-held", "agent": True,
+                "steps": [C, S(RATE_MS * 2), H, RL("B"), RL("C"), RL("A"), R, S(60), C, S(RATE_MS * 2), C]})
+    out.append({"name": "agent-reloads-behind-change", "agent": True,
+                "steps": [C, S(RATE_MS * 2), H, C, RL("B"), RL("C"), R, S(60), C, S(30), C]})
+    out.append({"name": "agent-reload-chain", "agent": True,
+                "steps": [C, S(RATE_MS * 2), H, RL("B"), RL("C"), RL("A"), R, S(20), H, RL("B"), RL("C"), RL("A"), R, C, S(30), C]})
+    out.append({"name": "agent-plain", "agent": True, "steps": [C, S(30), C, S(RATE_MS + 30), {"t": "reload", "s": "B"}, C, {"t": "burst", "n": 5},
+                                                                 S(RATE_MS * 2), {"t": "reload", "s": "C"}, S(10), C]})
+    nagent = 0
     while len(out) < n:
         steps = []
         for _ in range(rng.randint(2, 9)):
@@ -45,7 +59,8 @@ def scenarios(seed, n):
                     continue
                 cur = s["s"]
             clean.append(s)
-        out.append({"name": "random-%d" % len(out), "steps": clean})
+        nagent += 1
+        out.append({"name": "random-%d" % len(out), "steps": clean, "agent": nagent % 3 == 0})
     return out[:n]
 
 
